@@ -36,6 +36,9 @@ def gen_script(rng):
     L.append('#PRE')
     L += qs + ['counts', 'ls']
     L.append(rng.choice(['close', 'close', 'drop']))
+    # every index file left in the directory, byte for byte against the model's index_file_bytes (hash and record
+    # checksums masked): header, filter section (range + bloom bits), tree, leaves
+    L += ['filehex index %d' % i for i in range(4)]
     if stale:
         L.append('autoquiesce 1')
     # damage: one pattern on one or two index files
